@@ -257,19 +257,26 @@ class ANMLWriter:
         names_mapping[env.type_manager.BoolType()] = "boolean"
         names_mapping[env.type_manager.IntType()] = "integer"
         names_mapping[env.type_manager.RealType()] = "float"
+        # A valid name is kept as it is, unless another element already took it
+        # (possible when the environment flag error_used_name is disabled).
+        used_names = set(names_mapping.values())
         for t in self.problem.user_types:
             ut = cast(_UserType, t)
-            if _is_valid_anml_name(ut.name):  # No renaming needed
+            if _is_valid_anml_name(ut.name) and ut.name not in used_names:
                 names_mapping[t] = ut.name
+                used_names.add(ut.name)
         for a in self.problem.actions:
-            if _is_valid_anml_name(a.name):  # No renaming needed
+            if _is_valid_anml_name(a.name) and a.name not in used_names:
                 names_mapping[a] = a.name
+                used_names.add(a.name)
         for f in self.problem.fluents:
-            if _is_valid_anml_name(f.name):  # No renaming needed
+            if _is_valid_anml_name(f.name) and f.name not in used_names:
                 names_mapping[f] = f.name
+                used_names.add(f.name)
         for o in self.problem.all_objects:
-            if _is_valid_anml_name(o.name):  # No renaming needed
+            if _is_valid_anml_name(o.name) and o.name not in used_names:
                 names_mapping[o] = o.name
+                used_names.add(o.name)
 
         for t in self.problem.user_types:
             anml_type_name = _get_anml_name(t, names_mapping)
